@@ -1,3 +1,4 @@
+from mindsdb_sql.exceptions import ParsingException
 from mindsdb_sql.parser.ast.base import ASTNode
 from mindsdb_sql.parser.utils import indent
 from mindsdb_sql.parser.ast.create import TableColumn
@@ -36,9 +37,19 @@ class Insert(ASTNode):
             return TableColumn(col)
         elif isinstance(col, Identifier):
             return TableColumn(col.parts[0])
-        elif isinstance(col, Constant):
+        elif isinstance(col, Constant) and isinstance(col.value, str):
             return TableColumn(col.value)
-        return TableColumn(str(col))
+        elif isinstance(col, TableColumn):
+            return col
+        raise ParsingException(f'Column name is expected, got: {col}')
+
+    def columns_to_string(self):
+        # names are printed the way identifiers are
+        names = [
+            Identifier(parts=[col.name]).to_string() if isinstance(col.name, str) else str(col.name)
+            for col in self.columns
+        ]
+        return ', '.join(names)
 
     def to_value(self, val):
         if not isinstance(val, ASTNode):
@@ -51,7 +62,7 @@ class Insert(ASTNode):
         ind1 = indent(level + 1)
         ind2 = indent(level + 2)
         if self.columns is not None:
-            columns_str = ', '.join([i.name for i in self.columns])
+            columns_str = ', '.join([str(i.name) for i in self.columns])
         else:
             columns_str = ''
 
@@ -79,8 +90,7 @@ class Insert(ASTNode):
 
     def get_string(self, *args, **kwargs):
         if self.columns is not None:
-            cols = ', '.join([i.name for i in self.columns])
-            columns_str = f'({cols})'
+            columns_str = f'({self.columns_to_string()})'
         else:
             columns_str = ''
 
